@@ -420,3 +420,164 @@ def compare_noen(case, res, coq_out):
     if len(il) != len(ml):
         return {"kind": "length", "impl": len(il), "model": len(ml), "impl_tail": il[-2:], "model_tail": ml[-2:]}
     return None
+
+
+# ------------------------------------------------------------------ file-based executor (Model/FileExec.v)
+def gen_fexec_case(rng, max_calls=4, allow_fail=True):
+    """single session, no crash: calls with Future arguments (deps), repeated identical calls
+    (same_as), and the whole client alphabet (submit / cancel / result / shutdown / exit / drop)"""
+    n = rng.randint(0, max_calls)
+    calls = []
+    for i in range(1, n + 1):
+        c = {"args": [rng.randint(0, 2)], "deps": []}
+        if i > 1 and rng.random() < 0.45:
+            c["deps"] = sorted(rng.sample(range(1, i), rng.randint(1, min(2, i - 1))))
+            if rng.random() < 0.2:
+                c["deps"].append(c["deps"][0])                 # the same future twice
+        if i > 1 and rng.random() < 0.15:
+            j = rng.randrange(1, i)
+            if not calls[j - 1].get("same_as"):
+                c = {"args": list(calls[j - 1]["args"]), "deps": list(calls[j - 1]["deps"]), "same_as": j}
+        calls.append(c)
+    ops, pending, submitted, nshut = [], list(range(1, n + 1)), [], 0
+    while True:
+        r = rng.random()
+        if pending and r < 0.55:
+            i = pending.pop(0)
+            ops.append(["submit", i])
+            submitted.append(i)
+        elif submitted and r < 0.60:
+            ops.append(["cancel", rng.choice(submitted)])
+        elif submitted and r < 0.75:
+            ops.append(["result", rng.choice(submitted)])
+        elif r < 0.85 and nshut < 2:
+            ops.append(["exit"] if rng.random() < 0.2 else ["shutdown", rng.random() < 0.7, rng.random() < 0.3])
+            nshut += 1
+        elif not pending or rng.random() < 0.2:
+            break
+        if len(ops) > 12:
+            break
+    return {"mode": "file", "calls": calls, "ops": ops}
+
+
+def tid_coq_f(name):
+    if name == "M":
+        return "TM"
+    if name == "F":
+        return "TD"
+    return "(TP %s)" % name[1:]
+
+
+def coq_expr_f(case, res):
+    deps = ["[%s]" % "; ".join(str(d) for d in c.get("deps", [])) for c in case["calls"]]
+    canon = [str(c.get("same_as", i + 1)) for i, c in enumerate(case["calls"])]
+    picks = [tid_coq_f(t[1]) for t in res["trace"]]
+    return "(freplay_case [%s] [%s] %d [%s] [%s])%%nat" % (
+        "; ".join(deps), "; ".join(canon), len(case["calls"]), "; ".join(op_coq(o) for o in case["ops"]), "; ".join(picks))
+
+
+def impl_lines_f(case, res):
+    lines = ["%s|%s|%s" % (",".join(en), pick, " ".join(str(x) for x in lab)) for en, pick, lab in res["trace"]]
+    nf = len(case["calls"])
+    futs = [res["futures"].get(str(i), "pending") for i in range(1, nf + 1)]
+    outs = [x for x in (outcome_str(o) for o in res["outcomes"]) if x is not None]
+    ents = res["ents"]
+    pnames = sorted(res["procs"], key=lambda n: int(n[1:]))
+    ps = ["alive" if res["procs"][n]["alive"] else "exited" for n in pnames]
+    q = ["%d:%s" % (x["unf"], ".".join(x["items"])) for x in res["queues"]]
+    if "F" in ents:
+        st, exc = ents["F"]
+        loop = "live" if st not in ("done", "killed") else ("dead" if exc else "done")
+    else:
+        loop = "none"
+    lines.append("F|en=|futs=%s|outs=%s|main=%s|loop=%s|ps=%s|q=%s|nfiles=%d" % (
+        ",".join(futs), ",".join(outs), "end" if ents["M"][0] == "done" else "live", loop,
+        ",".join(ps), ",".join(q), res.get("nfiles", len(res.get("dir", {})))))
+    return lines
+
+
+def fexec_sessions(case):
+    return case.get("sessions") or [{"ops": case["ops"]}]
+
+
+def fexec_lockstep_ok(case):
+    """crash kinds the model has: a call process killed from outside, or the whole session ending"""
+    for s in fexec_sessions(case):
+        cr = s.get("crash")
+        if cr and not (cr["entity"] == "ALL" or cr["entity"].startswith("P")):
+            return False
+    return True
+
+
+def split_sessions(case, res):
+    """per session: trace entries renumbered to session-local queue 0 and process numbers"""
+    bounds, prev = [], 0
+    for so in res["sessions"]:
+        bounds.append((prev, so["steps"]))
+        prev = so["steps"]
+    out, seen_p = [], 0
+    for si, (a, b) in enumerate(bounds):
+        off = seen_p
+        ren = lambda n, off=off: ("P%d" % (int(n[1:]) - off)) if isinstance(n, str) and n[:1] == "P" and n[1:].isdigit() else n  # noqa
+        entries = []
+        for en, pick, lab in res["trace"][a:b]:
+            lab = list(lab)
+            if lab[0] == "crash" and lab[1] == "ALL":
+                continue
+            if lab[0] in ("spawn", "ppoll", "pterm", "crash"):
+                if lab[0] == "spawn":
+                    seen_p = max(seen_p, int(lab[1][1:]))
+                lab[1] = ren(lab[1])
+            if lab[0] in ("put", "get", "getnw", "td", "qjoin"):
+                lab[1] = lab[1] - si
+            entries.append(([ren(e) for e in en], ren(pick), lab))
+        out.append(entries)
+    return out
+
+
+def coq_expr_fs(case, res):
+    deps = ["[%s]" % "; ".join(str(d) for d in c.get("deps", [])) for c in case["calls"]]
+    canon = [str(c.get("same_as", i + 1)) for i, c in enumerate(case["calls"])]
+    sess = []
+    for s, entries in zip(fexec_sessions(case), split_sessions(case, res)):
+        picks = []
+        for en, pick, lab in entries:
+            picks.append("PCrash %s" % pick[1:] if lab[0] == "crash" else "PK %s" % tid_coq_f(pick))
+        sess.append("([%s], [%s])" % ("; ".join(op_coq(o) for o in s["ops"]), "; ".join(picks)))
+    return "(fsessions_case [%s] [%s] %d [%s])%%nat" % ("; ".join(deps), "; ".join(canon), len(case["calls"]), "; ".join(sess))
+
+
+def impl_lines_fs(case, res):
+    lines = []
+    parts = split_sessions(case, res)
+    for si, entries in enumerate(parts):
+        for en, pick, lab in entries:
+            lines.append("%s|%s|%s" % (",".join(en), pick, " ".join(str(x) for x in lab)))
+        if si < len(parts) - 1:
+            lines.append("S|nfiles=%d" % res["sessions"][si].get("nfiles", -1))
+    last = res["sessions"][-1]
+    nf = len(case["calls"])
+    futs = [res["futures"].get(str(i), "pending") for i in range(1, nf + 1)]
+    # futures of earlier sessions belong to dead interpreters: the model starts every session with fresh ones
+    mine = {o[1] for o in fexec_sessions(case)[-1]["ops"] if o[0] == "submit"}
+    futs = [f if (i + 1) in mine else "pending" for i, f in enumerate(futs)]
+    outs = [x for x in (outcome_str(o) for o in last["outcomes"]) if x is not None]
+    ents = res["ents"]
+    # processes of the last session only
+    nprev = 0
+    a = res["sessions"][-2]["steps"] if len(res["sessions"]) > 1 else 0
+    for en, pick, lab in res["trace"][:a]:
+        if lab[0] == "spawn":
+            nprev = max(nprev, int(lab[1][1:]))
+    pnames = sorted([n for n in res["procs"] if int(n[1:]) > nprev], key=lambda n: int(n[1:]))
+    ps = ["alive" if res["procs"][n]["alive"] else "exited" for n in pnames]
+    q = ["%d:%s" % (x["unf"], ".".join(x["items"])) for x in res["queues"][-1:]]
+    if "F" in ents:
+        st, exc = ents["F"]
+        loop = "live" if st not in ("done", "killed") else ("dead" if exc else "done")
+    else:
+        loop = "none"
+    lines.append("F|en=|futs=%s|outs=%s|main=%s|loop=%s|ps=%s|q=%s|nfiles=%d" % (
+        ",".join(futs), ",".join(outs), "end" if ents["M"][0] == "done" else "live", loop,
+        ",".join(ps), ",".join(q), res.get("nfiles", -1)))
+    return lines
